@@ -40,7 +40,7 @@ impl Property for C03 {
             real: &["src/asset.rs (load_from_source, default_value)", "src/error.rs (ErrorKind::or, Error)", "src/loader (Loader trait)", "src/key.rs", "src/anycache.rs (insert only after success)", "src/source/mod.rs (FileContent variants)"],
             stub: &["Source: in-memory tree whose files are present / undecodable / absent / unreadable(kind); contents empty, whitespace, large; Slice / Buffer / Owned FileContent"],
             assumptions: &["single simulated thread: what is simulated here is the faultable Source seam and the break/repair history, not interleaving (stated in DESIGN §7 C03)"],
-            runs: (20_000, 1_000_000),
+            runs: (100_000, 3_000_000),
         }
     }
     fn generate(&self, g: &mut SplitMix, k: &mut SplitMix, _tier: Tier) -> (Knobs, Value) {
